@@ -60,6 +60,15 @@ class TimeReversalPulseTemplate(PulseTemplate):
         if wf is not None:
             return wf.reversed()
 
+    def get_measurement_windows(self, parameters, measurement_mapping):
+        """This gets called if the parent is atomic: the windows of the (atomic) inner template mirrored about its
+        duration, as reverse_inplace does for a reversed program."""
+        windows = self._inner.get_measurement_windows(parameters=parameters, measurement_mapping=measurement_mapping)
+        if not windows:
+            return windows
+        duration = self._inner.duration.evaluate_in_scope(parameters)
+        return [(name, duration - (begin + length), length) for name, begin, length in windows]
+
     def get_serialization_data(self, serializer=None):
         assert serializer is None, "Old stype serialization not implemented for new class"
         return {
